@@ -86,7 +86,7 @@ LEVELS = {
             "components": {"real": ["pkg/core diamond/split/commit/cancel/list"], "stub": STUB},
             "assumptions": ["at most one committer alive per diamond in the open search", "no commit retry once a bundle descriptor of the diamond has landed"]},
     "C11": {"level": "exploration", "rule": RULE,
-            "text": "1..8 splits over 6 shared paths with contents from a 3-value alphabet (forcing identical duplicates) are uploaded by separate clients at distinct simulated times (some concurrently); the diamond is cloned object-for-object and committed six times (conflicts x2, ignore, checkpoints x2, forbid), each time with the arrival order of the split file lists chosen by the scheduler among all parked index-file reads. Oracle computed from the stored split entries only: latest upload time wins per path, every distinct losing version kept under the split that uploaded it, identical contents are no conflicts, no side paths in ignore mode, forbid fails iff two splits differ on a path, flags consistent, same-mode commits identical (order independence), main tree identical across modes, single-split diamond == plain upload",
+            "text": "1..8 splits over 6 shared paths with contents from a 3-value alphabet (forcing identical duplicates) are uploaded by separate clients at distinct simulated times (some concurrently); the diamond is cloned object-for-object and committed six times (conflicts x2, ignore, checkpoints x2, forbid), each time with the arrival order of the split file lists chosen by the scheduler among all parked index-file reads. Oracle computed from the stored split entries only: latest upload time wins per path, every distinct losing version kept under the split that uploaded it, identical contents are no conflicts, no side paths in ignore mode, forbid fails iff two splits differ on a path, flags consistent, same-mode commits identical (order independence), main tree identical across modes, single-split diamond == plain upload. A second scenario enumerates, for 2..4 splits, every arrival order of the split file lists (2, 6 or 24 orders, imposed on the scheduler instead of sampled) in a conflict-keeping mode and in forbid mode: each order gives the oracle's merge, all give the same bundle / the same refusal",
             "note": "exact ties of upload stamps between different contents are accepted either way; trusts simstore",
             "components": {"real": ["pkg/core diamond/split/commit/index", "pkg/cafs", "pkg/model"], "stub": STUB},
             "assumptions": ["tiny files, default or small leaf size"]},
